@@ -17,65 +17,41 @@ theorem get?_cons (p : String × β) (f : List (String × β)) (k' : String) :
   · have hb : (p.1 == k') = false := by simpa using h
     simp [get?, List.find?, hb, h]
 
-theorem get?_append_single (f : List (String × β)) (k k' : String) (v : β) :
-    get? (f ++ [(k, v)]) k' = match get? f k' with
-      | some x => some x
-      | none => if k = k' then some v else none := by
-  induction f with
-  | nil => simp [get?_cons, get?_nil]
-  | cons p f ih =>
-    simp only [List.cons_append, get?_cons]
-    by_cases h : p.1 = k' <;> simp [h, ih]
-
-theorem any_false_get? {f : List (String × β)} {k : String}
-    (h : f.any (fun p => p.1 == k) = false) : get? f k = none := by
-  induction f with
-  | nil => rfl
-  | cons p f ih =>
-    simp only [List.any_cons, Bool.or_eq_false_iff, beq_eq_false_iff_ne] at h
-    rw [get?_cons, if_neg h.1]
-    exact ih h.2
-
-theorem any_true_get? {f : List (String × β)} {k : String}
-    (h : f.any (fun p => p.1 == k) = true) : ∃ x, get? f k = some x := by
-  induction f with
-  | nil => simp at h
-  | cons p f ih =>
-    rw [get?_cons]
-    by_cases hp : p.1 = k
-    · exact ⟨p.2, by simp [hp]⟩
-    · simp only [List.any_cons, Bool.or_eq_true, beq_iff_eq, hp, false_or] at h
-      simpa [hp] using ih h
-
-theorem get?_map_set (f : List (String × β)) (k k' : String) (v : β) :
-    get? (f.map (fun p => if p.1 == k then (k, v) else p)) k' =
-      if k = k' then (get? f k).map (fun _ => v) else get? f k' := by
-  induction f with
-  | nil => simp [get?_nil]
-  | cons p f ih =>
-    simp only [List.map_cons, get?_cons, ih]
-    by_cases h1 : p.1 = k <;> by_cases h2 : k = k' <;> simp_all
-    · have h2' : ¬ k' = k := fun e => h2 e.symm
-      simp [h2']
-
 theorem get?_set_self (f : List (String × β)) (k : String) (v : β) : get? (set f k v) k = some v := by
-  unfold set
-  split
-  · rename_i h
-    obtain ⟨x, hx⟩ := any_true_get? h
-    rw [get?_map_set]; simp [hx]
-  · rename_i h
-    rw [get?_append_single, any_false_get? (Bool.eq_false_iff.mpr h)]
-    simp
+  induction f with
+  | nil => simp [set, get?_cons]
+  | cons p f ih =>
+    simp only [set]
+    by_cases h : p.1 = k
+    · simp [h, get?_cons]
+    · simp [h, get?_cons, ih]
 
 theorem get?_set_other (f : List (String × β)) (k k' : String) (v : β) (h : k' ≠ k) :
     get? (set f k v) k' = get? f k' := by
   have hb : ¬ k = k' := fun e => h e.symm
-  unfold set
-  split
-  · rw [get?_map_set]; simp [hb]
-  · rw [get?_append_single]
-    cases get? f k' <;> simp [hb]
+  induction f with
+  | nil => simp [set, get?_cons, get?_nil, hb]
+  | cons p f ih =>
+    simp only [set]
+    by_cases hp : p.1 = k
+    · have hp' : ¬ p.1 = k' := fun e => hb (hp.symm.trans e)
+      simp [hp, get?_cons, hb, hp']
+    · simp [hp, get?_cons, ih]
+
+/-- Writing a key back to the value it had undoes an intermediate write (no other entry moves). -/
+theorem set_set_restore (f : List (String × β)) (k : String) (u v : β) (h : get? f k = some v) :
+    set (set f k u) k v = f := by
+  induction f with
+  | nil => simp [get?_nil] at h
+  | cons p f ih =>
+    rw [get?_cons] at h
+    by_cases hp : p.1 = k
+    · simp only [hp, if_true, Option.some.injEq] at h
+      simp only [set, hp, if_true]
+      rw [← hp, ← h]
+    · simp only [hp, if_false] at h
+      simp only [set, hp, if_false]
+      rw [ih h]
 
 end Dict
 
